@@ -138,6 +138,18 @@ def check(run):
     units = [shards.Unit("u_" + s.name.lower(), glue(s, thorough), meta={"enum_src": s.render()}, sig="n=%d,%s" % (len(s.enabled()), s.signature())) for s in specs]
     run.rule = RULE
     samples = standard_flow(run, units, deps["std"], vmon, profiles=("fast",), tag="c10")
+    if thorough:
+        from .. import miri
+        import re as _re
+        r2 = gen.rng_for(run.seed, "c10-miri")
+        mu = []
+        for j, mask in enumerate([(False, False), (False, True, False), (True, False, False, False)]):
+            ms = build(r2, "M%d" % j, len(mask) - sum(mask), list(mask))
+            g = glue(ms, False)
+            g = _re.sub(r"explore_writes\(m, &t0, &model0, &key, \d+,", "explore_writes(m, &t0, &model0, &key, 2,", g)
+            g = _re.sub(r"random_walk\(m, &t0, &model0, &key, \d+\)", "random_walk(m, &t0, &model0, &key, 30)", g)
+            mu.append(shards.Unit("u_m%d" % j, g, meta={"enum_src": ms.render()}, sig="miri"))
+        miri.run_miri(run, mu)
     pick_samples(run, samples, {u.name: u for u in units})
     run.extra["programs"] = len(units)
     run.assumptions = ["array model (Vec<u64>) is the specification of a total map", "derive(Debug)/derive(PartialEq)/derive(Clone) of std are correct"]
